@@ -160,6 +160,48 @@ fn forward_function_reference(line: &str, lines: &[String]) -> bool {
     false
 }
 
+/// The property speaks of programs "whose function definitions are each unique and
+/// executed before any use". True when the text breaks that precondition: a function is
+/// defined twice, or called (outside its own DEF head) at a place that precedes its
+/// definition in line order - damage can put a call or a second DEF anywhere.
+fn breaks_function_precondition(lines: &[String]) -> bool {
+    let num = |l: &str| l.trim_start().chars().take_while(|c| c.is_ascii_digit()).collect::<String>().parse::<u64>().ok();
+    let mut ordered: Vec<(u64, String)> = lines.iter().filter_map(|l| num(l).map(|n| (n, crunch_upper(l)))).collect();
+    ordered.sort_by_key(|(n, _)| *n);
+    for name in ["QQ", "KK", "JJ", "ZZ$"] {
+        let head = format!("DEF{}(", name);
+        let call = format!("{}(", name);
+        let mut defs = 0;
+        let mut def_pos: Option<(usize, usize)> = None;
+        for (li, (_, text)) in ordered.iter().enumerate() {
+            for (off, _) in text.match_indices(&head) {
+                defs += 1;
+                if def_pos.is_none() {
+                    def_pos = Some((li, off));
+                }
+            }
+        }
+        if defs > 1 {
+            return true;
+        }
+        let Some((dl, doff)) = def_pos else { continue };
+        for (li, (_, text)) in ordered.iter().enumerate() {
+            for (off, _) in text.match_indices(&call) {
+                // the occurrence inside the DEF head itself is the definition
+                let is_head = off >= 3 && text[..off].ends_with("DEF");
+                // a call inside a DEF body is a use only when that function is called
+                // (a body may mention a function defined further down: known finding K3)
+                let stmt_start = text[..off].rfind(':').map(|p| p + 1).unwrap_or(0);
+                let in_def_body = text[stmt_start..off].contains("DEF");
+                if !is_head && !in_def_body && (li, off) < (dl, doff) {
+                    return true;
+                }
+            }
+        }
+    }
+    false
+}
+
 /// One execution; returns the forbidden error it ended with, if any.
 fn execute(lines: &[String], def_lines: usize, start: Option<u64>, env: u8, seed: u64) -> Result<Option<ErrInfo>, Crash> {
     let mut s = Sess::new();
@@ -259,7 +301,11 @@ fn check(c: &AgreeCase, rec: &mut CaseRec) -> Verdict {
     }
     // direction 1: an accepted program never fails with a syntax error, type mismatch or undefined line
     let mut executions = 0;
-    if accepted && !lines.is_empty() {
+    let precondition_broken = breaks_function_precondition(&lines);
+    if precondition_broken {
+        rec.class("function-precondition-broken(direction-1-skipped)");
+    }
+    if accepted && !lines.is_empty() && !precondition_broken {
         let def_lines = c.prog.lines.iter().take_while(|l| l.stmts.iter().all(|s| matches!(s, Stmt::Def { .. }))).count();
         let mut starts: Vec<Option<u64>> = vec![None];
         for l in c.prog.lines.iter().take(24) {
@@ -365,7 +411,7 @@ pub fn property() -> Property {
     ];
     Property {
         id: "C06",
-        rule: "Single numbered lines (1-3 statements from every statement template incl. IF/THEN/ELSE, FOR, NEXT, GOTO, GOSUB, READ, DATA, DIM, DEF, INPUT, calls) and small programs (DEFs first, each function defined at most once; one case in three hands the lines to the analyzer in a shuffled file order) in three modes: well-typed, ill-typed (kind errors injected in operands, subscripts, FOR bounds, assignment targets, arguments) and damaged (a word deleted / duplicated / swapped, the line truncated, a `$` added or stripped, a numeral given a fractional part, or a word replaced by / preceded with an array cell, a call, a value of the other kind, stray punctuation, a keyword, or a call of one of the program's functions with the wrong number or kind of arguments). Direction 1: when the analyzer reports no error, the program is executed by RUN and, after executing its DEF lines, by GOTO to each of its first 24 lines under three variable environments (all unset, all 1/\"a\", mixed) with mixed numeric/text replies, 300 calls each; no execution may end in a syntax error, TYPE MISMATCH or UNDEF'D STATEMENT. Direction 2: every file line the analyzer rejects and whose text contains no IF/THEN/ELSE/GOTO/GOSUB/RETURN/NEXT/END/STOP/INPUT/DEF and no user-function name is entered alone into a fresh interpreter and RUN; it must fail. Each execution is one evaluation. Non-trivial: an accepted program with >= 4 executions, or a rejected straight-line line confirmed; distinct by text.",
+        rule: "Single numbered lines (1-3 statements from every statement template incl. IF/THEN/ELSE, FOR, NEXT, GOTO, GOSUB, READ, DATA, DIM, DEF, INPUT, calls) and small programs (DEFs first, each function defined at most once; one case in three hands the lines to the analyzer in a shuffled file order) in three modes: well-typed, ill-typed (kind errors injected in operands, subscripts, FOR bounds, assignment targets, arguments) and damaged (a word deleted / duplicated / swapped, the line truncated, a `$` added or stripped, a numeral given a fractional part, or a word replaced by / preceded with an array cell, a call, a value of the other kind, stray punctuation, a keyword, or a call of one of the program's functions with the wrong number or kind of arguments). Direction 1: when the analyzer reports no error and the text keeps the property's precondition (no function defined twice, no call placed before its definition in line order - damage can break it, such cases are counted and skipped), the program is executed by RUN and, after executing its DEF lines, by GOTO to each of its first 24 lines under three variable environments (all unset, all 1/\"a\", mixed) with mixed numeric/text replies, 300 calls each; no execution may end in a syntax error, TYPE MISMATCH or UNDEF'D STATEMENT. Direction 2: every file line the analyzer rejects and whose text contains no IF/THEN/ELSE/GOTO/GOSUB/RETURN/NEXT/END/STOP/INPUT/DEF and no user-function name is entered alone into a fresh interpreter and RUN; it must fail. Each execution is one evaluation. Non-trivial: an accepted program with >= 4 executions, or a rejected straight-line line confirmed; distinct by text.",
         assumptions: vec![
             "branch forcing is by start line and variable environment, not exhaustive over conditions",
             "starting execution at any line after the DEFs ran is a legitimate execution of the program",
